@@ -46,8 +46,8 @@ def check_uniformlog(ctx):
     m = ctx.prog.module(DI)
     logps = m.all_functions.get("UniformLog.logp", [])
     rngs = m.all_functions.get("UniformLogRV.rng_fn", [])
-    ctx.floor(R + ":logp", len(logps), 2)
-    ctx.floor(R + ":rng_fn", len(rngs), 2)
+    ctx.floor(R + ":logp", len(logps), 1)   # the two pymc-version branches may be merged into one definition
+    ctx.floor(R + ":rng_fn", len(rngs), 1)
     for k, fn in enumerate(logps):
         tag = "logp variant %d" % (k + 1)
         flow = A.Flow(fn)
